@@ -286,8 +286,13 @@ lzma_lz_decoder_init(lzma_next_coder *next, const lzma_allocator *allocator,
 		// Otherwise this extra space is ignored.
 		coder->dict.buf = lzma_alloc(alloc_size + LZ_DICT_EXTRA,
 				allocator);
-		if (coder->dict.buf == NULL)
+		if (coder->dict.buf == NULL) {
+			// The old buffer is gone. Forget its size so that
+			// the next initialization won't think that a buffer
+			// of that size is still available.
+			coder->dict.size = 0;
 			return LZMA_MEM_ERROR;
+		}
 
 		// NOTE: Yes, alloc_size, not lz_options.dict_size. The way
 		// coder->dict.full is updated will take care that we will
